@@ -815,6 +815,32 @@ class NameTable:
                 pair = U.parse_functionals(f"{key},") if kind == "x" else U.parse_functionals(f",{key}")
                 if pair[0 if kind == "x" else 1] != target:
                     bad.append(f"{key!r} in the {'exchange' if kind == 'x' else 'correlation'} slot parses to {pair}")
+        # word shorthands: a word selects the functional it spells. Core of a Libxc label = the label without family (LDA / GGA) and kind (X / C / XC),
+        # e.g. LDA_C_CHACHIYO_MOD -> chachiyomod, GGA_X_PBE_SOL -> pbesol, LDA_C_PW -> pw; the word (without a trailing kind letter x / c and without
+        # the year digits of pw92 / vwn5) must equal the core of its target's label, and a trailing kind letter must agree with the target's kind
+        import re as _re
+
+        def core(label):
+            return _re.sub(r"^(lda|gga|mgga)_(xc|x|c)_?", "", label.lower()).replace("_", "")
+
+        generic = {"s": "lda_x", "lda": "lda_x", "slater": "lda_x"}
+        for key, target in U.XC_MAP.items():
+            if key.isdigit() or target not in claim:
+                continue
+            w = key.lower()
+            if w in generic:
+                if generic[w] != target:
+                    bad.append(f"shorthand {key!r} selects {target}, expected {generic[w]}")
+                continue
+            c = core(claim[target][0])
+            kind = target.split("_")[1]
+            stems = {w, w.replace("92", "").replace("5", "")}
+            if w[-1] in "xc" and len(w) > 2:
+                stems |= {w[:-1], w[:-1].replace("92", "").replace("5", "")}
+            if c not in stems:
+                bad.append(f"shorthand {key!r} selects {target} (Libxc {claim[target][0]}): the word does not spell that functional")
+            elif w[-1] in "xc" and w[:-1] in stems and c == w[:-1] and kind in ("x", "c") and w[-1] != kind:
+                bad.append(f"shorthand {key!r} ends in {w[-1]!r} but selects the {'exchange' if kind == 'x' else 'correlation'} functional {target}")
         for key, val in U.ALIAS.items():
             got = U.parse_functionals(key)
             parts = [U.XC_MAP[p.replace("_", "")] for p in val.split(",")]
@@ -844,3 +870,82 @@ class NameTable:
 register(Obligation(name="C09.name_tables.ids_shorthands_aliases", prop=PROP, engine="X", functions=["eminus.xc.utils:parse_functionals", "eminus.xc.utils:XC_MAP", "eminus.xc.utils:ALIAS"],
                     run=NameTable(), assumes=("cpython",),
                     doc="every Libxc number / shorthand / alias selects the built-in functional whose docstring claims that Libxc entry (claims checked against the Libxc table of PySCF)"))
+
+
+# ------------------------------------------------------------------------------------------------
+# bounded: meta-GGA components through the bridge are the derivatives of the bridge's own n * exc (slot-by-slot oracle independent of any layout)
+# ------------------------------------------------------------------------------------------------
+
+
+def mgga_bridge_derivatives(Nspin, seed=0):
+    """vxc[s], the sigma contraction and vtau[s] returned through get_xc for a bridged meta-GGA against central differences of n * exc in n_s, grad n_s
+    and tau_s at the same grid points: a component that ends up in another spin channel or at another grid point fails. Returns (worst rel. error, info)."""
+    import eminus
+    from eminus.xc.utils import get_xc
+
+    eminus.config.backend = "numpy"
+    rng = np.random.default_rng(seed)
+    N = 7
+    worst, where = 0.0, None
+    old_flag = eminus.config._use_pylibxc
+    eminus.config._use_pylibxc = False
+    try:
+        for xc in ([":MGGA_X_TPSS", "mock_xc"], ["mock_xc", ":MGGA_C_TPSS"], [":MGGA_X_SCAN", ":MGGA_C_SCAN"]):
+            n = rng.uniform(0.05, 0.6, (Nspin, N))
+            dn = rng.uniform(-0.3, 0.3, (Nspin, N, 3))
+            tau = np.sum(dn**2, axis=2) / (8 * n) + rng.uniform(0.05, 0.4, (Nspin, N))
+
+            def f(n_, dn_, tau_):
+                exc, vxc, vs, vt = get_xc(list(xc), n_, Nspin, dn_spin=dn_, tau=tau_)
+                return np.sum(n_, axis=0) * np.asarray(exc), np.asarray(vxc), np.asarray(vs), np.asarray(vt)
+
+            e0, vxc, vs, vt = f(n, dn, tau)
+            if vt.shape != (Nspin, N) or vxc.shape != (Nspin, N):
+                return 1.0, dict(xc=xc, shapes=dict(vxc=vxc.shape, vtau=vt.shape))
+            h = 1e-5
+            for s in range(Nspin):
+                d = np.zeros_like(n)
+                d[s] = h
+                for name, num, ana in (("vxc", (f(n + d, dn, tau)[0] - f(n - d, dn, tau)[0]) / (2 * h), vxc[s]),
+                                       ("vtau", (f(n, dn, tau + d)[0] - f(n, dn, tau - d)[0]) / (2 * h), vt[s])):
+                    err = float(np.abs(num - ana).max() / max(1e-3, np.abs(ana).max()))
+                    if err > worst:
+                        worst, where = err, dict(xc=xc, quantity=f"{name}[{s}]", Nspin=Nspin)
+                for c in range(3):
+                    dd = np.zeros_like(dn)
+                    dd[s, :, c] = h
+                    num = (f(n, dn + dd, tau)[0] - f(n, dn - dd, tau)[0]) / (2 * h)
+                    ana = 2 * vs[0] * dn[0, :, c] if Nspin == 1 else 2 * vs[2 * s] * dn[s, :, c] + vs[1] * dn[1 - s, :, c]
+                    err = float(np.abs(num - ana).max() / max(1e-3, np.abs(ana).max()))
+                    if err > worst:
+                        worst, where = err, dict(xc=xc, quantity=f"sigma contraction of spin {s}, component {c}", Nspin=Nspin)
+    finally:
+        eminus.config._use_pylibxc = old_flag
+    return worst, where
+
+
+class MggaBridge:
+    def __init__(self, Nspin):
+        self.Nspin = Nspin
+
+    def __call__(self, ob, tier, seed):
+        if not _pyscf_available():
+            return Result(UNDECIDED, backend="native", detail="PySCF (Libxc) is not importable")
+        try:
+            worst, where = mgga_bridge_derivatives(self.Nspin, seed)
+        except Exception as e:  # noqa: BLE001
+            return Result(REFUTED, backend="native", witness=dict(Nspin=self.Nspin), replayed=True, replay_info=dict(raised=f"{type(e).__name__}: {e}"), detail=f"bridged meta-GGA raises {type(e).__name__}: {e}")
+        if worst > 1e-5:
+            return Result(REFUTED, backend="native", witness=dict(seed=seed, Nspin=self.Nspin), replayed=True, replay_info=dict(worst=worst, where=where),
+                          detail=f"bridged meta-GGA (Nspin={self.Nspin}): {where} is not the derivative of the bridge's own n * exc (relative error {worst:.2e})")
+        return Result(BOUNDED_OK, backend="native", detail=f"bounded: TPSS x, TPSS c, SCAN xc through the PySCF bridge, Nspin={self.Nspin}: vxc, sigma contraction and vtau per spin are the derivatives of n * exc to {worst:.1e}")
+
+    def replay(self, wit):
+        worst, where = mgga_bridge_derivatives(self.Nspin, wit.get("seed", 0))
+        return bool(worst > 1e-5), dict(worst=worst, where=where)
+
+
+for _ns in (1, 2):
+    register(Obligation(name=f"C09.bridge.pyscf.mgga.Nspin{_ns}.components_are_derivatives", prop=PROP, engine="B", bounded=True, run=MggaBridge(_ns),
+                        functions=["eminus.extras.libxc:pyscf_functional", "eminus.extras.libxc:libxc_functional", "eminus.xc.utils:get_xc"],
+                        doc=f"BOUNDED: every component the bridge returns for a meta-GGA (Nspin={_ns}) is the derivative of n * exc with respect to the input in the same slot"))
